@@ -10,6 +10,7 @@ import (
 	"encoding/hex"
 	"fmt"
 	"strings"
+	"sync/atomic"
 
 	"github.com/gabriel-vasile/mimetype/internal/verifsim/lib"
 )
@@ -34,7 +35,16 @@ type Pred struct {
 	// callers never register anything while detections run: a read lock taken again while
 	// a writer waits is the documented way to deadlock a sync.RWMutex, library or not.
 	CallsBack int `json:"calls_back,omitempty"`
+	// FlagEq > 0: the detector accepts only while the caller's own switch (a plug-in
+	// registry, a feature flag; the package variable Flag here) holds FlagEq-1. The
+	// property says "arbitrary detector predicates": a detector may consult state that
+	// the library knows nothing about, and it must be asked every time.
+	FlagEq int `json:"flag_eq,omitempty"`
 }
+
+// Flag is the switch FlagEq detectors consult: set by "setflag" operations during a run and
+// by the checker, operation by operation, when it computes what the model expects.
+var Flag atomic.Int32
 
 // DetectorPanic is the value a trap detector panics with.
 type DetectorPanic struct{ Ext int }
@@ -77,6 +87,9 @@ func (p Pred) Eval(raw []byte, limit uint32) bool {
 	if p.LimitNe > 0 && int64(limit) == p.LimitNe-1 {
 		return false
 	}
+	if p.FlagEq > 0 && int(Flag.Load()) != p.FlagEq-1 {
+		return false
+	}
 	return true
 }
 
@@ -90,6 +103,9 @@ func (p Pred) String() string {
 	}
 	if p.CallsBack > 0 {
 		s = append(s, fmt.Sprintf("calls-back:%d", p.CallsBack))
+	}
+	if p.FlagEq > 0 {
+		s = append(s, fmt.Sprintf("flag==%d", p.FlagEq-1))
 	}
 	if p.Prefix != "" {
 		s = append(s, "prefix:"+p.Prefix)
